@@ -92,6 +92,8 @@ pub struct NodeFx {
     pub network: Network,
     /// set when the node runs over the cloud-staged (transactional) store instead of `store`
     pub cloud: Option<Arc<CloudPersister>>,
+    /// set by `new_with_factory`: the validator stack (e.g. OnchainValidatorFactory); a restart keeps it
+    pub factory: Option<Arc<dyn ValidatorFactory>>,
 }
 
 impl NodeFx {
@@ -112,7 +114,7 @@ impl NodeFx {
         cloud.new_tracker(&node.get_id(), &node.get_tracker()).expect("new_tracker");
         let _ = cloud.prepare();
         cloud.commit().expect("commit");
-        NodeFx { node, store: new_mem_persister(), clock, policy: None, network, cloud: Some(cloud) }
+        NodeFx { node, store: new_mem_persister(), clock, policy: None, network, cloud: Some(cloud), factory: None }
     }
 
     /// run `f` inside a store transaction (no-op wrapper for the plain in-memory store);
@@ -154,7 +156,7 @@ impl NodeFx {
             Ok(Err(st)) => Err(format!("status: {:?}", st)),
             Ok(Ok(nodes)) => {
                 let node = nodes.into_iter().next().ok_or("no node restored")?.1;
-                Ok(NodeFx { node, store: new_mem_persister(), clock, policy: None, network: self.network, cloud: Some(cloud) })
+                Ok(NodeFx { node, store: new_mem_persister(), clock, policy: None, network: self.network, cloud: Some(cloud), factory: None })
             }
         }
     }
@@ -168,7 +170,7 @@ impl NodeFx {
         node.add_allowlist(&[]).expect("allowlist");
         store.new_node(&node.get_id(), &config, &*node.get_state()).expect("new_node");
         store.new_tracker(&node.get_id(), &node.get_tracker()).expect("new_tracker");
-        NodeFx { node, store, clock, policy, network, cloud: None }
+        NodeFx { node, store, clock, policy, network, cloud: None, factory: None }
     }
 
     /// A second signer restored from a *copy* of the store ("crash + restart").
@@ -177,7 +179,10 @@ impl NodeFx {
         let store = new_mem_persister();
         load_store(&store.0, &d);
         let clock = Arc::new(ManualClock::new(self.clock_now()));
-        let services = make_services(store.clone(), clock.clone(), self.policy.clone());
+        let mut services = make_services(store.clone(), clock.clone(), self.policy.clone());
+        if let Some(f) = &self.factory {
+            services.validator_factory = f.clone();
+        }
         let r = crate::catch(|| {
             Node::restore_nodes(services, Arc::new(MemorySeedPersister::new(seed().to_vec())))
         });
@@ -186,7 +191,7 @@ impl NodeFx {
             Ok(Err(st)) => Err(format!("status: {:?}", st)),
             Ok(Ok(nodes)) => {
                 let node = nodes.into_iter().next().ok_or("no node restored")?.1;
-                Ok(NodeFx { node, store, clock, policy: self.policy.clone(), network: self.network, cloud: None })
+                Ok(NodeFx { node, store, clock, policy: self.policy.clone(), network: self.network, cloud: None, factory: self.factory.clone() })
             }
         }
     }
@@ -208,7 +213,7 @@ impl NodeFx {
         let store = new_mem_persister();
         let clock = Arc::new(ManualClock::new(Duration::from_secs(NOW_SECS)));
         let services = NodeServices {
-            validator_factory: factory,
+            validator_factory: factory.clone(),
             starting_time_factory: FixedStartingTimeFactory::new(NOW_SECS, 0),
             persister: store.clone(),
             clock: clock.clone(),
@@ -219,7 +224,7 @@ impl NodeFx {
         node.add_allowlist(&[]).expect("allowlist");
         store.new_node(&node.get_id(), &config, &*node.get_state()).expect("new_node");
         store.new_tracker(&node.get_id(), &node.get_tracker()).expect("new_tracker");
-        NodeFx { node, store, clock, policy: None, network, cloud: None }
+        NodeFx { node, store, clock, policy: None, network, cloud: None, factory: Some(factory) }
     }
 }
 
